@@ -1,3 +1,524 @@
-//! C10 — not built yet.
-pub const BUILT: bool = false;
-pub fn run(_rep: &mut vx::Report) {}
+//! C10 — text given through the API reads back unchanged.
+//!
+//! Space (all enumerated, nothing sampled): every string of length ≤ 2 (thorough: ≤ 3) over the
+//! 14-symbol alphabet {A, space, (, ), \, CR, LF, é, €, Ł, 中, U+1F600, U+FEFF, "þÿ"} at every
+//! text-bearing entry point:
+//!  * `whole-document`: set_title/author/subject/keywords/creator/producer, `fill_field`
+//!    (text field), annotation `/Contents`, outline item title — × the 3 writer configurations
+//!    (classic, xref streams, xref + object streams);
+//!  * `incremental-fill`: `IncrementalFormFiller::fill` on a text field and on a combo box of a
+//!    library-written base file;
+//!  * `text-notes`: `IncrementalTextNoteEditor::apply` Add and Update;
+//!  * thorough only — `every-scalar-title`: EVERY Unicode scalar value (1 112 064) as a
+//!    one-character title.
+//! Oracle: the library's own reader (`metadata()`, `/V`, `/Contents`, `/Title` through
+//! `PdfString::to_text`, `notes()`) returns the input, AND the reference reader (refpdf: file
+//! structure + §7.9.2.2 text-string decoding of the raw string object) returns the input.
+//! A documented refusal (`EncodingError` for non-WinAnsi form values with a built-in font,
+//! "contents must not be empty" for notes) writes nothing and is counted as excluded.
+use oxidize_pdf::annotations::{Annotation, AnnotationType};
+use oxidize_pdf::forms::{ComboBox, FormManager, TextField, Widget, WidgetAppearance};
+use oxidize_pdf::geometry::{Point, Rectangle};
+use oxidize_pdf::parser::objects::{PdfDictionary, PdfObject};
+use oxidize_pdf::parser::PdfReader;
+use oxidize_pdf::structure::{OutlineItem, OutlineTree};
+use oxidize_pdf::writer::{IncrementalFormFiller, IncrementalTextNoteEditor, TextNoteId, TextNoteMutation, WriterConfig};
+use oxidize_pdf::{Document, Page, PdfError};
+use refpdf::file::PdfFile;
+use refpdf::syntax::Obj;
+use refpdf::textstr::decode_text_string;
+use serde_json::json;
+use std::io::Cursor;
+use std::sync::atomic::{AtomicU64, Ordering};
+use vx::{Ctx, Explore, Report};
+
+pub const BUILT: bool = true;
+
+const ALPHABET: [&str; 14] = ["A", " ", "(", ")", "\\", "\r", "\n", "é", "€", "Ł", "中", "\u{1F600}", "\u{FEFF}", "þÿ"];
+
+static REFUSED_ENCODING: AtomicU64 = AtomicU64::new(0);
+static REFUSED_EMPTY_NOTE: AtomicU64 = AtomicU64::new(0);
+
+fn configs() -> [(&'static str, WriterConfig); 3] {
+    [
+        ("classic", WriterConfig::default()),
+        (
+            "xref-stream",
+            WriterConfig { use_xref_streams: true, use_object_streams: false, pdf_version: "1.5".to_string(), compress_streams: true, incremental_update: false },
+        ),
+        ("xref+object-streams", WriterConfig::modern()),
+    ]
+}
+
+/// all strings of length ≤ max over the alphabet, via choice points
+fn gen_string(c: &mut Ctx, max: usize) -> String {
+    let n = c.choose("len", max + 1);
+    let mut s = String::new();
+    for _ in 0..n {
+        s.push_str(*c.pick_from("sym", &ALPHABET[..]));
+    }
+    s
+}
+
+// ------------------------------------------------------------------ classification
+
+/// §7.3.4.2: an unescaped end-of-line marker inside a literal string is read as LF.
+fn eol_norm(b: &[u8]) -> Vec<u8> {
+    let mut out = Vec::with_capacity(b.len());
+    let mut i = 0;
+    while i < b.len() {
+        if b[i] == b'\r' {
+            out.push(b'\n');
+            if b.get(i + 1) == Some(&b'\n') {
+                i += 1;
+            }
+        } else {
+            out.push(b[i]);
+        }
+        i += 1;
+    }
+    out
+}
+
+/// What was observed for one (entry point, string): the raw bytes of the string object as
+/// the reference reader finds them, and the text the library's reader returns.
+struct Seen {
+    raw: Result<Vec<u8>, String>,
+    lib: Result<String, String>,
+}
+
+/// Returns the observation class (for outcome counting) and pushes failures.
+fn judge(family: &str, input: &str, seen: &Seen, fails: &mut Vec<(String, String)>) -> u64 {
+    let mut class = 0u64;
+    let u = input.as_bytes();
+    let mut raw_is_utf8_defect = false;
+    match &seen.raw {
+        Err(e) => {
+            class |= 1;
+            fails.push((format!("C10/{family}-reference-reader-cannot-find-text"), format!("input={input:?} {e}")));
+        }
+        Ok(raw) => {
+            let got = decode_text_string(raw);
+            if got != input {
+                let n = eol_norm(u);
+                let not_representable = decode_text_string(u) != input;
+                let cr_effect = raw.as_slice() != u && raw.as_slice() == n.as_slice();
+                if raw.as_slice() == u || cr_effect {
+                    raw_is_utf8_defect = true;
+                    let mut explained = false;
+                    if not_representable {
+                        class |= 2;
+                        explained = true;
+                        fails.push((
+                            format!("C10/{family}-non-ascii-written-as-raw-utf8"),
+                            format!("input={input:?} string object bytes=<{}> (= the UTF-8 of the input) decode as {got:?}", vx::hex(raw)),
+                        ));
+                    }
+                    if cr_effect {
+                        class |= 4;
+                        explained = true;
+                        fails.push((
+                            format!("C10/{family}-raw-CR-read-as-LF"),
+                            format!("input={input:?}: CR is written unescaped inside a literal string; a conforming reader yields <{}> = {got:?}", vx::hex(raw)),
+                        ));
+                    }
+                    if !explained {
+                        class |= 8;
+                        fails.push((format!("C10/{family}-reference-reader-text-differs"), format!("input={input:?} raw=<{}> decoded={got:?}", vx::hex(raw))));
+                    }
+                } else {
+                    class |= 8;
+                    fails.push((format!("C10/{family}-reference-reader-text-differs"), format!("input={input:?} raw=<{}> decoded={got:?}", vx::hex(raw))));
+                }
+            }
+        }
+    }
+    match &seen.lib {
+        Err(e) => {
+            class |= 16;
+            fails.push((format!("C10/{family}-library-reader-cannot-find-text"), format!("input={input:?} {e}")));
+        }
+        Ok(t) if t != input => {
+            // When the string object already holds the wrong bytes (raw UTF-8), the library's
+            // wrong text is the same defect seen through its reader, not a second one —
+            // provided it decoded exactly those bytes the way it always does.
+            let consequence = raw_is_utf8_defect
+                && seen.raw.as_ref().map(|r| oxidize_pdf::parser::objects::PdfString::new(r.clone()).to_text() == *t || oxidize_pdf::parser::objects::PdfString::new(u.to_vec()).to_text() == *t).unwrap_or(false);
+            if consequence {
+                class |= 32;
+            } else {
+                class |= 64;
+                fails.push((
+                    format!("C10/{family}-library-reader-text-differs"),
+                    format!("input={input:?} library read {t:?}; string object bytes={:?}", seen.raw.as_ref().map(|r| vx::hex(r))),
+                ));
+            }
+        }
+        Ok(_) => {}
+    }
+    class
+}
+
+fn report(c: &mut Ctx, family: &str, entry: &str, input: &str, seen: &Seen) {
+    let mut fails = Vec::new();
+    let class = judge(family, input, seen, &mut fails);
+    c.outcome(vx::h64(&(family, class)));
+    for (k, d) in fails {
+        c.fail(k, format!("entry={entry} {d}"));
+    }
+    if c.want_sample() {
+        c.sample(json!({"entry": entry, "input": input, "string_object_bytes": seen.raw.as_ref().map(|r| vx::hex(r)).unwrap_or_else(|e| e.clone()), "library_read": seen.lib.as_ref().map(|s| s.clone()).unwrap_or_else(|e| e.clone())}));
+    }
+}
+
+// ------------------------------------------------------------------ reference-side lookups
+
+fn str_of(o: &Obj, what: &str) -> Result<Vec<u8>, String> {
+    match o {
+        Obj::Str(s) => Ok(s.clone()),
+        other => Err(format!("{what} is {} {other:?}, not a string", other.type_name())),
+    }
+}
+fn ref_file(bytes: &[u8]) -> Result<PdfFile, String> {
+    PdfFile::parse(bytes).map_err(|e| format!("reference reader cannot open the file: {e}"))
+}
+fn ref_info(f: &PdfFile, key: &str) -> Result<Vec<u8>, String> {
+    let info = f.resolve_opt(f.trailer.get("Info"));
+    str_of(&f.dget(&info, key), &format!("/Info/{key}"))
+}
+fn ref_field_v(f: &PdfFile, idx: usize) -> Result<Vec<u8>, String> {
+    let cat = f.catalog()?;
+    let acro = f.dget(&cat, "AcroForm");
+    let fields = f.dget(&acro, "Fields");
+    let fld = f.resolve_opt(fields.as_array().and_then(|a| a.get(idx)));
+    str_of(&f.dget(&fld, "V"), "/AcroForm/Fields[i]/V")
+}
+fn ref_annot_contents(f: &PdfFile) -> Result<Vec<u8>, String> {
+    let pages = f.pages()?;
+    let p = pages.first().ok_or("no pages")?;
+    let annots = f.resolve_opt(p.dict.get("Annots"));
+    let a = f.resolve_opt(annots.as_array().and_then(|a| a.first()));
+    str_of(&f.dget(&a, "Contents"), "/Annots[0]/Contents")
+}
+fn ref_outline_title(f: &PdfFile) -> Result<Vec<u8>, String> {
+    let cat = f.catalog()?;
+    let ol = f.dget(&cat, "Outlines");
+    let first = f.dget(&ol, "First");
+    str_of(&f.dget(&first, "Title"), "/Outlines/First/Title")
+}
+
+// ------------------------------------------------------------------ library-side lookups
+
+fn lib_guard<T>(f: impl FnOnce() -> Result<T, String>) -> Result<T, String> {
+    match vx::guard(f) {
+        Ok(r) => r,
+        Err(p) => Err(format!("PANIC {p}")),
+    }
+}
+fn e2s<E: std::fmt::Debug>(e: E) -> String {
+    vx::one_line(&format!("{e:?}"), 200)
+}
+fn lib_deref(r: &mut PdfReader<Cursor<&[u8]>>, o: Option<&PdfObject>) -> Result<PdfObject, String> {
+    match o {
+        None => Err("missing".into()),
+        Some(PdfObject::Reference(n, g)) => r.get_object(*n, *g).map(|o| o.clone()).map_err(e2s),
+        Some(o) => Ok(o.clone()),
+    }
+}
+fn lib_text(d: &PdfDictionary, key: &str) -> Result<String, String> {
+    d.get(key).and_then(|o| o.as_string()).map(|s| s.to_text()).ok_or_else(|| format!("no string /{key} (keys {:?})", d.0.keys().map(|k| k.as_str().to_string()).collect::<Vec<_>>()))
+}
+fn lib_info(bytes: &[u8], idx: usize) -> Result<String, String> {
+    lib_guard(|| {
+        let mut r = PdfReader::new(Cursor::new(bytes)).map_err(e2s)?;
+        let m = r.metadata().map_err(e2s)?;
+        [m.title, m.author, m.subject, m.keywords, m.creator, m.producer][idx].clone().ok_or_else(|| "metadata() has no value".to_string())
+    })
+}
+fn lib_field_v(bytes: &[u8], idx: usize) -> Result<String, String> {
+    lib_guard(|| {
+        let mut r = PdfReader::new(Cursor::new(bytes)).map_err(e2s)?;
+        let cat = r.catalog().map_err(e2s)?.clone();
+        let acro = lib_deref(&mut r, cat.get("AcroForm"))?;
+        let fields = lib_deref(&mut r, acro.as_dict().ok_or("AcroForm not a dict")?.get("Fields"))?;
+        let f = lib_deref(&mut r, fields.as_array().ok_or("Fields not an array")?.get(idx))?;
+        lib_text(f.as_dict().ok_or("field not a dict")?, "V")
+    })
+}
+fn lib_annot_contents(bytes: &[u8]) -> Result<String, String> {
+    lib_guard(|| {
+        let r = PdfReader::new(Cursor::new(bytes)).map_err(e2s)?;
+        let doc = r.into_document();
+        let annots = doc.get_page_annotations(0).map_err(e2s)?;
+        lib_text(annots.first().ok_or("no annotations on page 0")?, "Contents")
+    })
+}
+fn lib_outline_title(bytes: &[u8]) -> Result<String, String> {
+    lib_guard(|| {
+        let mut r = PdfReader::new(Cursor::new(bytes)).map_err(e2s)?;
+        let cat = r.catalog().map_err(e2s)?.clone();
+        let ol = lib_deref(&mut r, cat.get("Outlines"))?;
+        let first = lib_deref(&mut r, ol.as_dict().ok_or("Outlines not a dict")?.get("First"))?;
+        lib_text(first.as_dict().ok_or("outline item not a dict")?, "Title")
+    })
+}
+
+// ------------------------------------------------------------------ document builders
+
+const INFO_KEYS: [&str; 6] = ["Title", "Author", "Subject", "Keywords", "Creator", "Producer"];
+
+fn doc_with_info(idx: usize, s: &str) -> Document {
+    let mut doc = Document::new();
+    doc.add_page(Page::a4());
+    match idx {
+        0 => doc.set_title(s),
+        1 => doc.set_author(s),
+        2 => doc.set_subject(s),
+        3 => doc.set_keywords(s),
+        4 => doc.set_creator(s),
+        _ => doc.set_producer(s),
+    }
+    doc
+}
+
+fn form_doc(combo: bool) -> Document {
+    let mut doc = Document::new();
+    let mut page = Page::a4();
+    let mut fm = FormManager::new();
+    let rect = Rectangle::new(Point::new(100.0, 700.0), Point::new(300.0, 720.0));
+    let widget = Widget::new(rect).with_appearance(WidgetAppearance::default());
+    let fref = if combo {
+        fm.add_combo_box(ComboBox::new("f").add_option("one", "One").editable(), widget.clone(), None).expect("add_combo_box")
+    } else {
+        fm.add_text_field(TextField::new("f"), widget.clone(), None).expect("add_text_field")
+    };
+    page.add_form_widget_with_ref(widget, fref).expect("add_form_widget_with_ref");
+    doc.add_page(page);
+    doc.set_form_manager(fm);
+    doc
+}
+
+fn write(doc: &mut Document, cfg: &WriterConfig) -> Result<Vec<u8>, String> {
+    match vx::guard(|| doc.to_bytes_with_config(cfg.clone())) {
+        Ok(Ok(b)) => Ok(b),
+        Ok(Err(e)) => Err(format!("write error {}", e2s(e))),
+        Err(p) => Err(format!("write PANIC {p}")),
+    }
+}
+
+pub fn run(rep: &mut Report) {
+    let thorough = rep.tier.is_thorough();
+    let max_len = if thorough { 3 } else { 2 };
+    rep.rule("case = (entry point, writer configuration, string); every string of length ≤ 2 (thorough 3) over the 14-symbol alphabet \
+              (under the xref+object-streams configuration, whose files take seconds of CPU each to read back: the single string é, thorough all of length ≤ 1); \
+              non-trivial = the string has a character outside printable ASCII or a PDF string delimiter; distinct = distinct (entry, configuration, string)");
+    rep.assume("refpdf::file + refpdf::textstr are the independent reader (text strings per ISO 32000-1 §7.9.2.2 / 32000-2 UTF-8 form; PDFDocEncoding from Annex D)");
+    rep.assume("a documented refusal that writes nothing (EncodingError for non-WinAnsi field values with a built-in font; empty/blank note contents) is excluded and counted, not a violation");
+    let cfgs = configs();
+
+    // ---- whole-document entry points
+    rep.explore("whole-document", Explore::full(), |c: &mut Ctx| {
+        let entry = c.choose("entry", 9);
+        let ci = c.choose("writer-config", 3);
+        let (cname, cfg) = &cfgs[ci];
+        // WriterConfig::modern() numbers its object streams from 1 000 000, so every such file
+        // carries a 1 000 000-entry cross-reference stream and costs the library's reader seconds
+        // of CPU to open: that configuration gets a reduced string menu (stated in the rule).
+        let s = if ci == 2 {
+            if thorough { gen_string(c, 1) } else { "é".to_string() }
+        } else {
+            gen_string(c, max_len)
+        };
+        c.input(vx::h64(&(entry, *cname, &s)));
+        if s.chars().any(|ch| !(' '..='~').contains(&ch) || "()\\".contains(ch)) {
+            c.nontrivial();
+        }
+        let (family, ename, mut doc): (&str, String, Document) = match entry {
+            0..=5 => ("info", format!("set_{}", INFO_KEYS[entry].to_lowercase()), doc_with_info(entry, &s)),
+            6 => {
+                let mut d = form_doc(false);
+                match vx::guard(|| d.fill_field("f", s.clone())) {
+                    Ok(Ok(())) => {}
+                    Ok(Err(PdfError::EncodingError(_))) => {
+                        REFUSED_ENCODING.fetch_add(1, Ordering::Relaxed);
+                        c.outcome(vx::h64(&("refused", entry)));
+                        return;
+                    }
+                    other => {
+                        c.fail("C10/field-value-fill_field-failed", format!("input={s:?} {}", e2s(other)));
+                        return;
+                    }
+                }
+                ("field-value", "fill_field".to_string(), d)
+            }
+            7 => {
+                let mut d = Document::new();
+                let mut p = Page::a4();
+                let rect = Rectangle::new(Point::new(50.0, 50.0), Point::new(70.0, 70.0));
+                p.add_annotation(Annotation::new(AnnotationType::Text, rect).with_contents(s.clone()));
+                d.add_page(p);
+                ("annotation-contents", "Annotation::with_contents".to_string(), d)
+            }
+            _ => {
+                let mut d = Document::new();
+                d.add_page(Page::a4());
+                let mut t = OutlineTree::new();
+                t.add_item(OutlineItem::new(s.clone()));
+                d.set_outline(t);
+                ("outline-title", "OutlineItem::new".to_string(), d)
+            }
+        };
+        let entry_name = format!("{ename} config={cname}");
+        let bytes = match write(&mut doc, cfg) {
+            Ok(b) => b,
+            Err(e) => {
+                c.fail(format!("C10/{family}-write-failed"), format!("entry={entry_name} input={s:?} {e}"));
+                return;
+            }
+        };
+        let rf = ref_file(&bytes);
+        let raw = rf.and_then(|f| match entry {
+            0..=5 => ref_info(&f, INFO_KEYS[entry]),
+            6 => ref_field_v(&f, 0),
+            7 => ref_annot_contents(&f),
+            _ => ref_outline_title(&f),
+        });
+        let lib = match entry {
+            0..=5 => lib_info(&bytes, entry),
+            6 => lib_field_v(&bytes, 0),
+            7 => lib_annot_contents(&bytes),
+            _ => lib_outline_title(&bytes),
+        };
+        report(c, family, &entry_name, &s, &Seen { raw, lib });
+    });
+
+    // ---- incremental form fill (base files written once by the library)
+    let base_text = form_doc(false).to_bytes().expect("base document with a text field");
+    let base_combo = form_doc(true).to_bytes().expect("base document with a combo box");
+    rep.explore("incremental-fill", Explore::full(), |c: &mut Ctx| {
+        let combo = c.flag("combo-box");
+        let s = gen_string(c, max_len);
+        c.input(vx::h64(&(combo, &s)));
+        c.nontrivial();
+        let base = if combo { &base_combo } else { &base_text };
+        let entry_name = if combo { "IncrementalFormFiller::fill(combo box)" } else { "IncrementalFormFiller::fill(text field)" };
+        let out = match vx::guard(|| IncrementalFormFiller::new(base).fill("f", &s)) {
+            Ok(Ok(b)) => b,
+            Ok(Err(PdfError::EncodingError(_))) => {
+                REFUSED_ENCODING.fetch_add(1, Ordering::Relaxed);
+                c.outcome(vx::h64(&("refused", combo)));
+                return;
+            }
+            other => {
+                c.fail("C10/incremental-fill-failed", format!("entry={entry_name} input={s:?} {}", e2s(other.map(|r| r.map(|b| b.len())))));
+                return;
+            }
+        };
+        if !out.starts_with(base) {
+            c.fail("C10/incremental-fill-does-not-append", format!("entry={entry_name} input={s:?}"));
+        }
+        let raw = ref_file(&out).and_then(|f| ref_field_v(&f, 0));
+        let lib = lib_field_v(&out, 0);
+        report(c, "incremental-fill", entry_name, &s, &Seen { raw, lib });
+    });
+
+    // ---- text notes
+    let base_note = {
+        let mut d = Document::new();
+        let mut p = Page::a4();
+        let rect = Rectangle::new(Point::new(50.0, 50.0), Point::new(70.0, 70.0));
+        p.add_annotation(Annotation::new(AnnotationType::Text, rect).with_contents("old"));
+        d.add_page(p);
+        d.to_bytes().expect("base document with a text note")
+    };
+    let base_note_id: Option<TextNoteId> = IncrementalTextNoteEditor::new(&base_note).notes().ok().and_then(|n| n.first().map(|n| n.id));
+    rep.explore("text-notes", Explore::full(), |c: &mut Ctx| {
+        let update = c.flag("update-existing");
+        let s = gen_string(c, max_len);
+        c.input(vx::h64(&(update, &s)));
+        c.nontrivial();
+        let entry_name = if update { "TextNoteMutation::Update" } else { "TextNoteMutation::Add" };
+        let Some(old_id) = base_note_id else {
+            c.fail("C10/text-note-base-file-has-no-note", "the library does not list the /Text annotation it wrote itself".to_string());
+            return;
+        };
+        let m = if update {
+            TextNoteMutation::Update { id: old_id, position: Point::new(100.0, 100.0), contents: s.clone() }
+        } else {
+            TextNoteMutation::Add { page_index: 0, position: Point::new(200.0, 200.0), contents: s.clone() }
+        };
+        let upd = match vx::guard(|| IncrementalTextNoteEditor::new(&base_note).apply(&[m])) {
+            Ok(Ok(u)) => u,
+            Ok(Err(PdfError::InvalidStructure(msg))) if msg.contains("must not be empty") && s.trim().is_empty() => {
+                REFUSED_EMPTY_NOTE.fetch_add(1, Ordering::Relaxed);
+                c.outcome(vx::h64(&("refused-empty", update)));
+                return;
+            }
+            other => {
+                c.fail("C10/text-note-apply-failed", format!("entry={entry_name} input={s:?} {}", e2s(other.map(|r| r.map(|u| u.pdf_bytes.len())))));
+                return;
+            }
+        };
+        let id = if update { old_id } else { upd.added_notes.first().map(|n| n.id).unwrap_or(old_id) };
+        let out = upd.pdf_bytes;
+        let raw = ref_file(&out).and_then(|f| str_of(&f.get(id.object_number).dict_get("Contents").cloned().unwrap_or(Obj::Null), "note /Contents"));
+        let lib = lib_guard(|| {
+            let notes = IncrementalTextNoteEditor::new(&out).notes().map_err(e2s)?;
+            notes.iter().find(|n| n.id == id).map(|n| n.contents.clone()).ok_or_else(|| format!("note {id:?} not listed"))
+        });
+        report(c, "text-note", entry_name, &s, &Seen { raw, lib });
+    });
+
+    // ---- thorough: every Unicode scalar value as a one-character title
+    if thorough {
+        let cfg = WriterConfig::default();
+        rep.explore("every-scalar-title", Explore::full(), |c: &mut Ctx| {
+            // 0x110000 / 256 blocks of 256 code points; surrogate blocks are empty
+            let block = c.choose("block-of-256", 0x1100) as u32;
+            c.input(block as u64);
+            c.nontrivial();
+            let mut per_key: std::collections::BTreeMap<String, u32> = Default::default();
+            let mut oh = 0u64;
+            let mut n = 0u64;
+            for cp in block * 256..block * 256 + 256 {
+                let Some(ch) = char::from_u32(cp) else { continue };
+                n += 1;
+                let s = ch.to_string();
+                let mut doc = doc_with_info(0, &s);
+                let mut fails = Vec::new();
+                let class = match write(&mut doc, &cfg) {
+                    Err(e) => {
+                        fails.push(("C10/info-write-failed".to_string(), format!("input={s:?} {e}")));
+                        1 << 20
+                    }
+                    Ok(bytes) => {
+                        let raw = ref_file(&bytes).and_then(|f| ref_info(&f, "Title"));
+                        let lib = lib_info(&bytes, 0);
+                        judge("info", &s, &Seen { raw, lib }, &mut fails)
+                    }
+                };
+                oh = vx::hmix(oh, class);
+                for (k, d) in fails {
+                    let e = per_key.entry(k.clone()).or_insert(0);
+                    *e += 1;
+                    if *e <= 2 {
+                        c.fail(k, format!("entry=set_title U+{cp:04X} {d}"));
+                    }
+                }
+            }
+            c.add_evaluations(n.saturating_sub(1));
+            c.outcome(oh);
+            if c.want_sample() {
+                c.sample(json!({"titles": format!("U+{:04X}..=U+{:04X}", block * 256, block * 256 + 255), "scalars_in_block": n}));
+            }
+        });
+    }
+
+    rep.note(
+        "excluded_cells",
+        json!({
+            "refused_with_EncodingError (non-WinAnsi value, built-in font: fill_field / IncrementalFormFiller on a text field)": REFUSED_ENCODING.load(Ordering::Relaxed),
+            "refused_blank_note_contents": REFUSED_EMPTY_NOTE.load(Ordering::Relaxed),
+        }),
+    );
+}
